@@ -16,5 +16,5 @@ git apply "$M/patch.diff"
 if go test -vet=off -count=1 -run 'TestDemo' . >/tmp/mw.out 2>&1; then echo "VERDICT $M demo-passes-with-patch"; exit 1; fi
 rm ./zz_demo_test.go
 go test -vet=off -count=1 ./... 2>&1 | grep -E '^--- FAIL' | sort > /tmp/mw.fail
-if [ "$(cat /tmp/mw.fail)" != "--- FAIL: TestDecimalFormat"* ] && [ "$(grep -v TestDecimalFormat /tmp/mw.fail | wc -l)" != "0" ]; then echo "VERDICT $M suite-fails-with-patch: $(cat /tmp/mw.fail | tr '\n' ' ')"; exit 1; fi
+if [ -s /tmp/mw.fail ]; then echo "VERDICT $M suite-fails-with-patch: $(cat /tmp/mw.fail | tr '\n' ' ')"; exit 1; fi
 echo "VERDICT $M confirmed"
